@@ -554,6 +554,14 @@ class VariantBase(productmd.common.MetadataBase):
         # There can be exceptions, like $variant-optional on top-level,
         # because optional lives in a separate tree
         if name not in self.variants and "-" in name:
+            if hasattr(self, "uid"):
+                # below a variant the name is a path relative to it: "X-X" asked
+                # of X is X's grandchild X-X-X, if there is one
+                head, tail = name.split("-", 1)
+                try:
+                    return self.variants[head][tail]
+                except KeyError:
+                    pass
             # look for the UID first
             for i in self.variants:
                 var = self.variants[i]
